@@ -588,6 +588,19 @@ theorem i32_roundtrip (i : Int) (h : -2147483648 ≤ i ∧ i < 2147483648) : Rd.
   unfold Rd.toI32 i32ToU32
   split <;> omega
 
+theorem emits_emitPairs : ∀ (b : Bytes), b.length % 2 = 0 → (∀ x ∈ b, x < 256) → Emits (emitPairs b) (laySeg b)
+  | [], _, _ => by unfold emitPairs; exact emits_nothing_seg
+  | [_], h, _ => by simp at h
+  | a :: c :: rest, h, hb => by
+    unfold emitPairs
+    have ha := hb a (by simp); have hc := hb c (by simp)
+    have h1 : (a * 256 + c) / 256 % 256 = a := by omega
+    have h2 : (a * 256 + c) % 256 = c := by omega
+    have := emits_seg_seq (emits_emitU16 (a * 256 + c))
+      (emits_emitPairs rest (by simp at h; omega) (fun x hx => hb x (by simp [hx])))
+    rw [h1, h2] at this
+    simpa using this
+
 theorem emits_seqAll7 {f1 f2 f3 f4 f5 f6 f7 : Enc → ERes Unit} {L1 L2 L3 L4 L5 L6 L7 : Lay} (i1 : IsLayout L1)
     (i2 : IsLayout L2) (i3 : IsLayout L3) (i4 : IsLayout L4) (i5 : IsLayout L5) (i6 : IsLayout L6)
     (i7 : IsLayout L7) (h1 : Emits f1 L1) (h2 : Emits f2 L2) (h3 : Emits f3 L3) (h4 : Emits f4 L4)
@@ -598,13 +611,14 @@ theorem emits_seqAll7 {f1 f2 f3 f4 f5 f6 f7 : Enc → ERes Unit} {L1 L2 L3 L4 L5
 
 /-- the RDATA variants covered by the round-trip proof so far -/
 def _root_.HickoryVerif.Wire.RData.proved : RData → Bool
-  | .a _ | .name _ | .mx _ _ | .soa _ _ _ _ _ _ _ | .txt _ | .srv _ _ _ _ | .hinfo _ _ | .null _
+  | .a _ | .aaaa _ | .name _ | .mx _ _ | .soa _ _ _ _ _ _ _ | .txt _ | .srv _ _ _ _ | .hinfo _ _ | .null _
   | .unknown _ _ => true
   | _ => false
 
 /-- the layout `RData::emit` leaves for the covered variants -/
 def layRData : RData → Lay
   | .a b => laySeg b
+  | .aaaa b => laySeg b
   | .name n => layName n.labels
   | .mx p n => laySeq (laySeg (u16b p)) (laySeq (layName n.labels) layEmpty)
   | .srv p w port n =>
@@ -626,12 +640,14 @@ def _root_.HickoryVerif.Wire.RData.namesWF : RData → Prop
   | .mx _ n => n.WF
   | .srv _ _ _ n => n.WF
   | .soa m r _ _ _ _ _ => m.WF ∧ r.WF
+  | .aaaa b => b.length = 16 ∧ ∀ x ∈ b, x < 256
   | _ => True
 
 theorem isLayout_rdata (d : RData) (hp : d.proved = true) : IsLayout (layRData d) := by
   cases d <;> first | (simp [RData.proved] at hp; done) | skip
   all_goals unfold layRData
   case a => exact isLayout_seg _
+  case aaaa => exact isLayout_seg _
   case name => exact isLayout_name _
   case mx => exact isLayout_seq (isLayout_seg _) (isLayout_seq (isLayout_name _) isLayout_empty)
   case soa =>
@@ -651,6 +667,7 @@ theorem emits_emitRData (t : Nat) (d : RData) (hp : d.proved = true) (hwf : d.na
   cases d <;> first | (simp [RData.proved] at hp; done) | skip
   all_goals unfold emitRData layRData
   case a b => exact emits_emitSlice b
+  case aaaa b => exact emits_emitPairs b (by rw [hwf.1]) hwf.2
   case name n => exact emits_withRdataBehavior (emits_emitName n hwf) _
   case mx p n =>
     exact emits_withRdataBehavior (emits_seqAll2 (isLayout_seg _) (isLayout_name _) (emits_emitU16 p)
@@ -803,6 +820,7 @@ def UnknownType (t : Nat) : Prop :=
 /-- the record type matches the RDATA variant, and the numeric fields are in range -/
 def _root_.HickoryVerif.Wire.RData.typeOK (t : Nat) : RData → Prop
   | .a b => t = 1 ∧ b.length = 4
+  | .aaaa b => t = 28 ∧ b.length = 16
   | .name _ => t = 2 ∨ t = 5 ∨ t = 12 ∨ t = 65305
   | .mx p _ => t = 15 ∧ p < 65536
   | .srv p w port _ => t = 33 ∧ p < 65536 ∧ w < 65536 ∧ port < 65536
@@ -855,6 +873,46 @@ theorem reads_charData {buf s : Bytes} {p : Nat} (h : SegAt buf p (s.length :: s
   refine Reads.bind (show Reads Rd.pop buf p s.length (p + 1) from by simpa using Reads.pop g0) ?_
   exact Reads.readSlice hs
 
+theorem reads_aaaa {opq : Nat → Rd Bytes} {buf b : Bytes} {p : Nat} (hlen : b.length = 16) (hb : ∀ x ∈ b, x < 256)
+    (hseg : SegAt buf p b) (hq : buf.length = p + 16) :
+    Reads (readRDataBody opq 28) buf p (.aaaa b) buf.length := by
+  rcases b with _ | ⟨b0, _ | ⟨b1, _ | ⟨b2, _ | ⟨b3, _ | ⟨b4, _ | ⟨b5, _ | ⟨b6, _ | ⟨b7, _ | ⟨b8, _ | ⟨b9, _ |
+    ⟨b10, _ | ⟨b11, _ | ⟨b12, _ | ⟨b13, _ | ⟨b14, _ | ⟨b15, _ | ⟨b16, r⟩⟩⟩⟩⟩⟩⟩⟩⟩⟩⟩⟩⟩⟩⟩⟩⟩ <;> simp at hlen
+  have s0 := hseg.sub 0 2 (by simp)
+  have s1 := hseg.sub 2 2 (by simp)
+  have s2 := hseg.sub 4 2 (by simp)
+  have s3 := hseg.sub 6 2 (by simp)
+  have s4 := hseg.sub 8 2 (by simp)
+  have s5 := hseg.sub 10 2 (by simp)
+  have s6 := hseg.sub 12 2 (by simp)
+  have s7 := hseg.sub 14 2 (by simp)
+  simp only [List.drop, List.take] at s0 s1 s2 s3 s4 s5 s6 s7
+  simp only [readRDataBody, Nat.reduceEqDiff, ↓reduceIte]
+  refine Reads.bind (Reads.readU16 s0) ?_
+  refine Reads.bind (Reads.readU16 s1) ?_
+  refine Reads.bind (Reads.readU16 s2) ?_
+  refine Reads.bind (Reads.readU16 s3) ?_
+  refine Reads.bind (Reads.readU16 s4) ?_
+  refine Reads.bind (Reads.readU16 s5) ?_
+  refine Reads.bind (Reads.readU16 s6) ?_
+  refine Reads.bind (Reads.readU16 s7) ?_
+  have e : p + 0 + 2 + 2 + 2 + 2 + 2 + 2 + 2 + 2 = buf.length := by omega
+  have hh : ∀ x y : Nat, x < 256 → y < 256 → (x * 256 + y) / 256 = x ∧ (x * 256 + y) % 256 = y := by
+    intro x y hx hy; omega
+  have a0 := hh b0 b1 (hb _ (by simp)) (hb _ (by simp))
+  have a1 := hh b2 b3 (hb _ (by simp)) (hb _ (by simp))
+  have a2 := hh b4 b5 (hb _ (by simp)) (hb _ (by simp))
+  have a3 := hh b6 b7 (hb _ (by simp)) (hb _ (by simp))
+  have a4 := hh b8 b9 (hb _ (by simp)) (hb _ (by simp))
+  have a5 := hh b10 b11 (hb _ (by simp)) (hb _ (by simp))
+  have a6 := hh b12 b13 (hb _ (by simp)) (hb _ (by simp))
+  have a7 := hh b14 b15 (hb _ (by simp)) (hb _ (by simp))
+  have hp : p + 2 + 2 + 2 + 2 + 2 + 2 + 2 + 2 = buf.length := by omega
+  simp only [Nat.add_zero] at *
+  rw [← hp]
+  refine Reads.pure' _ _ ?_
+  rw [a0.1, a0.2, a1.1, a1.2, a2.1, a2.2, a3.1, a3.2, a4.1, a4.2, a5.1, a5.2, a6.1, a6.2, a7.1, a7.2]
+
 /-- **the RDATA decoders invert the RDATA emitters** (covered variants) -/
 theorem reads_rdataBody {H : Nat × Nat → Prop} {opq : Nat → Rd Bytes} {t : Nat} {buf : Bytes} {p : Nat}
     (d : RData) (hp : d.proved = true) (hty : d.typeOK t) (hwf : d.namesWF)
@@ -876,6 +934,10 @@ theorem reads_rdataBody {H : Nat × Nat → Prop} {opq : Nat → Rd Bytes} {t : 
     have : p + 0 + 1 + 1 + 1 + 1 = buf.length := by simp at hq; omega
     rw [← this]
     exact Reads.pure _ _ _
+  case aaaa b =>
+    obtain ⟨rfl, _⟩ := hty
+    obtain ⟨hseg, hq⟩ := hl
+    exact reads_aaaa hwf.1 hwf.2 hseg (by rw [hq, hwf.1])
   case name n =>
     have hbody : readRDataBody opq t = (do let n ← Rd.name; pure (.name n)) := by
       unfold readRDataBody
@@ -969,6 +1031,7 @@ theorem layRData_pos {H : Nat × Nat → Prop} {b : Bytes} {p q : Nat} (d : RDat
   obtain ⟨t, hty⟩ := hty
   cases d <;> first | (simp [RData.proved] at hp; done) | skip
   case a bb => obtain ⟨_, rfl⟩ := hl; have := hty.2; omega
+  case aaaa bb => obtain ⟨_, rfl⟩ := hl; have := hty.2; omega
   case name n => obtain ⟨F, h1, _⟩ := hl; exact h1.pos_lt_end
   case mx pr n =>
     obtain ⟨m1, l1, m2, l2, l3⟩ := hl
